@@ -1095,6 +1095,46 @@ func (w *world) check(shadow *Shadow, where string) {
 	}
 }
 
+// relayMissingParts: every correct node of height h that has set up a part set it does not hold completely (the block
+// id came with votes or with a proposal whose parts went elsewhere) receives the matching parts that some correct node
+// holds - what gossip does, whatever the faulty sender's address list said. Returns the number of nodes served while
+// they held +2/3 prevotes of their round for that block.
+func (w *world) relayMissingParts(h int64) int {
+	served := 0
+	for _, n := range w.active(h) {
+		rs := n.RS()
+		if rs.ProposalBlockParts == nil || rs.ProposalBlockParts.IsComplete() {
+			continue
+		}
+		want := rs.ProposalBlockParts.Header()
+		polka := false
+		if pv := rs.Votes.Prevotes(rs.Round); pv != nil {
+			if id, ok := pv.TwoThirdsMajority(); ok && id.PartSetHeader.Equals(want) {
+				polka = true
+			}
+		}
+		any := false
+		for _, p := range w.net.Pool {
+			if p.Kind != "part" || p.H != h || !w.net.held(p) {
+				continue
+			}
+			bm, ok := p.Msg.(*consensus.BlockPartMessage)
+			if !ok || bm.Part == nil || uint32(bm.Part.Proof.Total) != want.Total {
+				continue
+			}
+			if string(bm.Part.Proof.ComputeRootHash()) != string(want.Hash) {
+				continue
+			}
+			w.net.redeliver(p, n.Key)
+			any = true
+		}
+		if any && polka {
+			served++
+		}
+	}
+	return served
+}
+
 // playHeight plays up to maxRounds structured rounds of height h.
 func (w *world) playHeight(shadow *Shadow, h int64, maxRounds int32) {
 	w.fireStep(h, cstypes.RoundStepNewHeight)
@@ -1132,6 +1172,15 @@ func (w *world) playHeight(shadow *Shadow, h int64, maxRounds int32) {
 		w.faultyVotes(h, r, tmproto.PrevoteType, pv, fmt.Sprintf("r%d.fpv", r))
 		w.deliverPhase(h, r, map[string]bool{"prevote": true}, pv)
 		prev = w.observe(prev)
+		if _, ok := w.forced[fmt.Sprintf("r%d.lateblock", r)]; ok || (w.forced == nil && rapid.IntRange(0, 3).Draw(w.t, "lateblock") == 0) {
+			// the block arrives AFTER the polka: nodes that wait for the parts of a block id they learnt from the votes
+			// get them from the correct nodes that hold them, before the prevote timeout fires
+			if w.relayMissingParts(h) > 0 {
+				lib.Class(w.opt.Test, "block-completed-after-its-polka")
+				prev = w.observe(prev)
+				w.check(shadow, fmt.Sprintf("h%d r%d late block", h, r))
+			}
+		}
 		w.fireStep(h, cstypes.RoundStepPrevoteWait)
 		w.check(shadow, fmt.Sprintf("h%d r%d prevote", h, r))
 		// ---- precommit phase
@@ -1440,6 +1489,15 @@ func (w *world) structuredByzProposal(h int64, r int32, pk int, pat pattern) {
 	case "two":
 		a, b := mk(0, false), mk(1, false)
 		if a != nil && b != nil {
+			if f := w.forced["bprop.group"]; f == "victim" && w.victim >= 0 {
+				group = map[int]bool{w.victim: true}
+				rest = map[int]bool{}
+				for _, c := range w.net.Order {
+					if !group[c] {
+						rest[c] = true
+					}
+				}
+			}
 			if group == nil {
 				group = w.drawGroup("bprop.g")
 				rest = map[int]bool{}
